@@ -1,5 +1,6 @@
 import Rivaas.Lemmas.ConfigMerge
 import Rivaas.Lemmas.ConfigSM
+import Rivaas.Lemmas.ConfigEnv
 /-
 C14 — Configuration merging is last-source-wins and reload is atomic.
 
@@ -818,5 +819,70 @@ example :
   decide
 
 end statement_level
+
+/-! ## 8. the environment source (`config/source/env.go`, `config/codec/env.go`) is inside the model
+
+`envSource prefix os.Environ()` (`Model/ConfigEnv.lean`) is what the driver feeds into `load` for a `WithEnv` source;
+the harness ships `os.Environ()` and the prefix, nothing it computed itself. -/
+
+theorem lemma_envDef_ne_nil {l : Bytes} {q : List Bytes} {w : Bytes} (h : envDef l = some (q, w)) : q ≠ [] := by
+  unfold envDef at h
+  split at h
+  · cases h
+  · simp only [] at h
+    split at h
+    · cases h
+    · split at h
+      · cases h
+      · rename_i hne
+        injection h with h; injection h with h1 _
+        rw [← h1]; exact hne
+
+/-- **last assignment wins inside the environment too**: a variable is visible, as a string with blanks trimmed, at
+    the key path its name spells (prefix stripped, lower-cased, split at `_`, empty parts dropped) provided no variable
+    listed after it in `os.Environ()` assigns the same path, a prefix of it (that would replace the enclosing map by
+    a string) or an extension of it (that would replace the string by a map). -/
+theorem env_var_visible (pre post : List Bytes) (line : Bytes) (p : List Bytes) (v : Bytes)
+    (hdef : envDef line = some (p, v))
+    (hpost : ∀ l ∈ post, ∀ q w, envDef l = some (q, w) → ¬ q <+: p ∧ ¬ p <+: q) :
+    getPath (envDecode (pre ++ line :: post)) p = some (strLeaf v) := by
+  have hp : p ≠ [] := lemma_envDef_ne_nil hdef
+  unfold envDecode
+  rw [List.foldl_append, List.foldl_cons]
+  have h0 : getPath (envLine (List.foldl envLine [] pre) line) p = some (strLeaf v) := by
+    simp only [envLine, hdef]
+    exact getPath_insertPath_self _ p hp _
+  generalize envLine (List.foldl envLine [] pre) line = acc at h0
+  induction post generalizing acc with
+  | nil => exact h0
+  | cons l rest ih =>
+    rw [List.foldl_cons]
+    apply ih (fun l' hl' => hpost l' (List.mem_cons_of_mem _ hl'))
+    unfold envLine
+    cases hd : envDef l with
+    | none => exact h0
+    | some qw =>
+      obtain ⟨q, w⟩ := qw
+      obtain ⟨h1, h2⟩ := hpost l (List.mem_cons_self ..) q w hd
+      simp only []
+      rw [getPath_insertPath_other acc q p (lemma_envDef_ne_nil hd) hp h1 h2]
+      exact h0
+
+/-- lines the codec skips change nothing: no `=`, an empty name, a name made of `_` only -/
+theorem env_skipped_line (conf : Kvs) (line : Bytes) (h : envDef line = none) : envLine conf line = conf := by
+  simp [envLine, h]
+
+/-- not vacuous, and the quirks the model shares with the code: the prefix must match as a whole (`PX_NAME` is not
+    `P_…`); `A_B=1` then `A=2` then `A_C=3`: the string replaces the map, the map replaces the string; a value with a
+    line feed smuggles in a second variable; names are trimmed and lower-cased, values trimmed -/
+example :
+    let m := envSource "P_".toList
+      ["P_A_B=1".toList, "PX_NAME=decoy".toList, "P_ Name = x ".toList, "P_A=2".toList, "P_A_C=3\nINJ_X=4".toList,
+       "P__RATE_=".toList, "P__=5".toList]
+    (classify (getPath m ["a".toList, "c".toList]), classify (getPath m ["a".toList, "b".toList]),
+     classify (getPath m ["name".toList]), classify (getPath m ["inj".toList, "x".toList]),
+     classify (getPath m ["rate".toList]), classify (getPath m ["a".toList]), m.length) =
+    (.leaf "s:3".toList, .none, .leaf "s:x".toList, .leaf "s:4".toList, .leaf "s:".toList, .isMap, 4) := by
+  decide
 
 end Rivaas.C14
